@@ -8,6 +8,7 @@ import (
 	"os/exec"
 	"strconv"
 	"sync"
+	"sync/atomic"
 	"time"
 
 	"verif/mc"
@@ -29,6 +30,7 @@ type nativeScen struct {
 // runNativeOnce runs the scenario body free-running on real goroutines.
 func runNativeOnce(sc *Scenario) (string, bool) {
 	env := &Env{sc: sc, rec: &Rec{}, native: true, hooks: hooksFor(sc)}
+	env.setup()
 	done := make(chan struct{})
 	go func() {
 		defer close(done)
@@ -43,17 +45,8 @@ func runNativeOnce(sc *Scenario) (string, bool) {
 		}
 		return "", false
 	}
-	// give the handler goroutine a moment to record its return (it may finish after the client)
-	for i := 0; i < 200; i++ {
-		all := true
-		for _, rr := range env.rec.RPCs {
-			if rr.HandlerRan > 0 && !rr.HandlerDone {
-				all = false
-			}
-		}
-		if all {
-			break
-		}
+	// give handler goroutines a moment to finish (they may outlive the client side)
+	for i := 0; i < 200 && atomic.LoadInt32(&env.hDone) < atomic.LoadInt32(&env.hStarted); i++ {
 		time.Sleep(time.Millisecond)
 	}
 	env.finalize()
